@@ -100,9 +100,61 @@ fn far_future_mtime(report: &mut Report) {
     }
 }
 
+/// Directed, real code + oracle only (no model run: the byte-list model is not meant for megabytes): sizes and
+/// shapes the random generator never reaches — files of several MiB around block-size multiples with default-like
+/// options, a 255-byte name, forty levels of nesting, a directory with 3000 entries.
+fn large_scale(seed: u64, report: &mut Report) {
+    let work = tempfile::tempdir().expect("tempdir");
+    let (src, arch, dest) = (work.path().join("src"), work.path().join("arch"), work.path().join("dest"));
+    std::fs::create_dir(&src).unwrap();
+    let mut rng = Rng::new(seed ^ 0xB16);
+    let mib = 1usize << 20;
+    let mut data = |n: usize| -> Vec<u8> { let mut x = rng.next_u64(); (0..n).map(|_| { x ^= x << 13; x ^= x >> 7; x ^= x << 17; (x >> 24) as u8 }).collect() };
+    for (name, n) in [("big-exact", 2 * mib), ("big-plus-one", mib + 1), ("big-minus-one", 3 * mib - 1), ("big-zeros", 0usize), ("mid", 65_537)] {
+        let body = if name == "big-zeros" { vec![0u8; 4 * mib + 3] } else { data(n) };
+        std::fs::write(src.join(name), body).unwrap();
+    }
+    let long = "n".repeat(255);
+    std::fs::write(src.join(&long), b"long name").unwrap();
+    let mut deep = src.clone();
+    for i in 0..40 {
+        deep = deep.join(format!("d{i}"));
+    }
+    std::fs::create_dir_all(&deep).unwrap();
+    std::fs::write(deep.join("leaf"), b"deep").unwrap();
+    let wide = src.join("wide");
+    std::fs::create_dir(&wide).unwrap();
+    for i in 0..3000 {
+        std::fs::write(wide.join(format!("w{i:04}")), if i % 7 == 0 { b"x".as_slice() } else { b"".as_slice() }).unwrap();
+    }
+    let obs = observe(&src);
+    create_archive(&arch);
+    let p = BackupParams { max_entries_per_hunk: 1000, max_block_size: mib, small_file_cap: 65_536, owner: true, exclude: vec![] };
+    let backup = real_backup(&arch, &src, &p, IceptConfig::default());
+    let restore = real_restore(&arch, &dest, &RestoreParams { sel: Sel::Closed, subtree: None, exclude: vec![], overwrite: false }, IceptConfig::default());
+    let restored = if dest.exists() { observe(&dest) } else { vec![] };
+    let case = json!({"op": "backup-restore", "directed": "large-scale: files of 2 MiB, 1 MiB+1, 3 MiB-1, 4 MiB+3 of zeros, 65537 B; a 255-byte name; 40 levels; a directory of 3000 entries", "options": {"max_entries_per_hunk": 1000, "max_block_size": mib, "small_file_cap": 65536}});
+    report.case("large-scale", true);
+    report.hit("directed:large-scale");
+    if !backup.result.starts_with("result ok") || !backup.result.contains(" errors=0") || backup.events.iter().any(|e| e.starts_with("event error")) {
+        report.oracle_fail("backup-not-clean-large-scale", case, "backup crashed or reported errors", json!({"result": trunc(&backup.result)}));
+    } else if !restore.result.starts_with("result ok") || !restore.events.is_empty() {
+        report.oracle_fail("restore-not-clean-large-scale", case, "restore crashed or reported errors", json!({"result": trunc(&restore.result), "events": restore.events.iter().take(3).collect::<Vec<_>>()}));
+    } else if let Some(d) = tree_diff(&obs, &restored) {
+        report.oracle_fail("restored-tree-differs-large-scale", case, "restored tree differs from the source tree", json!({"field": d["field"], "apath": d["apath"]}));
+    } else {
+        // and the format reader agrees with what was written (blocks named by their hash, addresses inside, sizes)
+        let (state, _) = abstract_archive(&arch);
+        for (sig, what) in crate::c13::format_violations(&state, &std::collections::BTreeMap::new()) {
+            report.oracle_fail(&sig, case.clone(), "the independent reader of the documented format found a violation (large-scale case)", what);
+        }
+    }
+}
+
 pub fn run(tier: &str, seed: u64, report: &mut Report) {
     let thorough = tier == "thorough";
     far_future_mtime(report);
+    large_scale(seed, report);
     let n_cases = if thorough { 1500 } else { 120 };
     let mut session = Session::new();
     let mut pend: Vec<Pending> = Vec::new();
